@@ -177,17 +177,25 @@ Shift(op, a, b) ==    \* op in {"<<", ">>"}
   ELSE NilOrType(a, b)
 Flip(a) == IF a.k = "int" THEN Ok(IntV(-a.v - 1)) ELSE NilOrType1(a)
 Not(a) == IF a.k = "bool" THEN Ok(BoolV(~a.v)) ELSE NilOrType1(a)
-LenOf(a) == IF IsOpqS(a) THEN Unspec ELSE IF a.k \in {"str", "arr"} THEN Ok(IntV(Len(a.v))) ELSE NilOrType1(a)
+\* Length, indexing and slicing of a string are documented in terms of its characters; the implementation counts bytes.  The two
+\* agree on ASCII text; for a string with any other character the README is silent, so those operations are Unspecified there
+\* (concatenation, comparison and rendering are not affected).
+AsciiChars == {" ", "!", "\"", "#", "$", "%", "&", "'", "(", ")", "*", "+", ",", "-", ".", "/", "0", "1", "2", "3", "4", "5", "6", "7",
+               "8", "9", ":", ";", "<", "=", ">", "?", "@", "A", "B", "C", "D", "E", "F", "G", "H", "I", "J", "K", "L", "M", "N", "O",
+               "P", "Q", "R", "S", "T", "U", "V", "W", "X", "Y", "Z", "[", "\\", "]", "^", "_", "`", "a", "b", "c", "d", "e", "f", "g",
+               "h", "i", "j", "k", "l", "m", "n", "o", "p", "q", "r", "s", "t", "u", "v", "w", "x", "y", "z", "{", "|", "}", "~", "\n", "\t", "\r"}
+AsciiStr(v) == \A i \in 1..Len(v.v) : v.v[i] \in AsciiChars
+LenOf(a) == IF IsOpqS(a) \/ (a.k = "str" /\ ~AsciiStr(a)) THEN Unspec ELSE IF a.k \in {"str", "arr"} THEN Ok(IntV(Len(a.v))) ELSE NilOrType1(a)
 Neg(a) == Arith("*", IntV(-1), a)        \* unary minus is -1 * x
 
 Index1(a, i) ==
-  IF i.k = "bigint" \/ a.k = "bigint" \/ IsOpqS(a) THEN Unspec ELSE
+  IF i.k = "bigint" \/ a.k = "bigint" \/ IsOpqS(a) \/ (a.k = "str" /\ ~AsciiStr(a)) THEN Unspec ELSE
   IF i.k = "nil" THEN NilErr ELSE IF i.k # "int" THEN Err("type")
   ELSE IF a.k \notin {"str", "arr"} THEN (IF a.k = "nil" THEN [err |-> "type", alt |-> "nil"] ELSE Err("type"))
   ELSE IF i.v < 0 \/ i.v >= Len(a.v) THEN Err("index")
   ELSE IF a.k = "str" THEN Ok(StrV(<<a.v[i.v + 1]>>)) ELSE Ok(a.v[i.v + 1])
 Index2(a, i, j) ==
-  IF i.k = "bigint" \/ j.k = "bigint" \/ a.k = "bigint" \/ IsOpqS(a) THEN Unspec ELSE
+  IF i.k = "bigint" \/ j.k = "bigint" \/ a.k = "bigint" \/ IsOpqS(a) \/ (a.k = "str" /\ ~AsciiStr(a)) THEN Unspec ELSE
   IF i.k = "nil" THEN NilErr ELSE IF i.k # "int" THEN Err("type")
   ELSE IF j.k = "nil" THEN NilErr ELSE IF j.k # "int" THEN Err("type")
   ELSE IF a.k \notin {"str", "arr"} THEN (IF a.k = "nil" THEN [err |-> "type", alt |-> "nil"] ELSE Err("type"))
